@@ -64,7 +64,7 @@ func basicValues(t reflect.Type) []namedValue {
 	case auxType:
 		return []namedValue{{"nil-aux", reflect.Zero(auxType)}, nv("aux{k:1}", stackage.Auxiliary{"k": 1})}
 	case opType:
-		return []namedValue{{"Eq", reflect.ValueOf(stackage.Eq).Convert(reflect.TypeOf(stackage.Eq))}, nv("userOp", userOp{"~=", "ctx"}), {"nil-op", reflect.Zero(opType)}, nv("ComparisonOperator(0)", stackage.ComparisonOperator(0)), nv("sliceOp", sliceOp{"=~", "ctx"})}
+		return []namedValue{{"Eq", reflect.ValueOf(stackage.Eq).Convert(reflect.TypeOf(stackage.Eq))}, nv("userOp", userOp{"~=", "ctx"}), {"nil-op", reflect.Zero(opType)}, nv("ComparisonOperator(0)", stackage.ComparisonOperator(0)), nv("sliceOp", sliceOp{"=~", "ctx"}), nv("(*ComparisonOperator)(nil)", (*stackage.ComparisonOperator)(nil))}
 	case anyType:
 		return []namedValue{nv(`"v"`, "v"), nv("7", 7), {"nil", reflect.Zero(anyType)}, nv("Stack", stackage.Or().Push("n")), nv("Condition", stackage.Cond("ck", stackage.Eq, "cv")),
 			nv("[]string{q}", []string{"q"}), nv("'r'", 'r'), nv("*log.Logger", catLogger), nv("LogLevel3", stackage.LogLevel3), nv(`"stdout-no"`, "off")}
@@ -111,6 +111,8 @@ func awkwardAny() []namedValue {
 	freedC.Free()
 	out := []namedValue{
 		{"nil", reflect.Zero(anyType)},
+		// values that some `any` parameter gives a meaning to (logger designations)
+		nv(`"stderr"`, "stderr"), nv(`"STDOUT"`, "STDOUT"), nv("int 2", 2), nv("*log.Logger", log.New(io.Discard, "", 0)), nv("(*log.Logger)(nil)", (*log.Logger)(nil)),
 		nv("(*int)(nil)", np), nv("(**string)(nil)", (**string)(nil)), nv("&(*string)(nil)", &nilStr), nv("**int", &pn),
 		nv("(*Stack)(nil)", (*stackage.Stack)(nil)), nv("(*Condition)(nil)", (*stackage.Condition)(nil)), nv("(*StackAlias)(nil)", (*StackAlias)(nil)), nv("(*CondAlias)(nil)", (*CondAlias)(nil)),
 		nv("Stack{}", stackage.Stack{}), nv("Condition{}", stackage.Condition{}), nv("StackAlias{}", StackAlias{}), nv("CondAlias{}", CondAlias{}), nv("&Stack{}", &stackage.Stack{}),
